@@ -875,7 +875,9 @@ Qed.
 
 (* ---------- findings: sets that do not survive ---------- *)
 
-(* the binary writer truncates lengths to 16 bits: a 65536-byte transport id that is itself a
+(* F25, about the FORMER writer [marshal_bin_former] = [frames] without any check (repaired in
+   /repo by d2e00d7; the writer as it is now is [marshal_bin_checked], see the end of this file).
+   The former binary writer truncates lengths to 16 bits: a 65536-byte transport id that is itself a
    sequence of three well-formed pairs is read back as the empty id plus three unknown keys *)
 Definition long_tid : bytes :=
   [0; 1; 97; 127; 127] ++ repeat 120 (N.to_nat 32639) ++ [0; 1; 98; 127; 0] ++ repeat 120 (N.to_nat 32512)
@@ -929,3 +931,122 @@ Lemma level_unchecked_without_type :
   let p := mkP [] [] (Some 99%Z) (Some 77%Z) [] false [] 0 0 in
   validate p = Some p /\ forall base, effective (compress_config p base) = Enabled (c_dct base) 99%Z 77%Z.
 Proof. split; [reflexivity | intros base; reflexivity]. Qed.
+
+(* ---------- the property's notion of a valid set ([valid_set]) against Validate ---------- *)
+
+Lemma valid_set_valid_spec p : valid_set p = true -> valid_spec p = true.
+Proof.
+  unfold valid_set, valid_spec. rewrite !andb_true_iff, !orb_true_iff.
+  intros [[[[Ha Hc] Hr] Hw] _]. split; [exact Ha|].
+  destruct Hc as [Hc|Hc]; [now left | right]. now rewrite Hc, Hr, Hw.
+Qed.
+
+(* every valid set is accepted; the only change Validate makes is filling in level 6 *)
+Lemma valid_set_accepted p : valid_set p = true -> validate p = Some (validated_spec p).
+Proof. intros H. apply validate_accepts, valid_set_valid_spec, H. Qed.
+
+Lemma in_range_int64 lo hi o : (int64_min <= lo)%Z -> (hi <= int64_max)%Z ->
+  in_range lo hi o = true -> forall z, o = Some z -> in_int64 z = true.
+Proof.
+  intros Hlo Hhi H z ->. unfold in_range in H. unfold in_int64.
+  apply andb_true_iff in H as [H1 H2]. apply Z.leb_le in H1, H2.
+  apply andb_true_iff; split; apply Z.leb_le; lia.
+Qed.
+
+(* valid sets (with machine-int group fields) are inside the domain of the round-trip lemmas *)
+Lemma valid_set_transportable p :
+  valid_set p = true -> in_int64 (p_tgcount p) = true -> in_int64 (p_tgidx p) = true -> transportable_p p.
+Proof.
+  unfold valid_set, valid_text, transportable_p. rewrite !andb_true_iff.
+  intros [[[[_ _] Hr] Hw] [[[H1 H2] H3] H4]] Hc Hi.
+  repeat split; auto.
+  - apply (in_range_int64 0 9); [unfold int64_min | unfold int64_max |]; auto; lia.
+  - apply (in_range_int64 0 32); [unfold int64_min | unfold int64_max |]; auto; lia.
+Qed.
+
+(* invalid sets are rejected by Validate - outside the two shapes of the findings:
+   F26 (text that is not UTF-8 is not looked at) and F27 (level / window bits are not looked at
+   when no compression type is named) *)
+Lemma invalid_rejected p :
+  valid_text p = true ->
+  (p_comp p = [] -> in_range 0 9 (p_level p) && in_range 0 32 (p_bits p) = true) ->
+  (validate p = None <-> valid_set p = false).
+Proof.
+  intros Ht Hn. rewrite validate_spec.
+  assert (E : valid_spec p = valid_set p).
+  { unfold valid_spec, valid_set. rewrite Ht, andb_true_r.
+    destruct (known_enc (p_enc p)); cbn [andb]; [|reflexivity].
+    destruct (is_nil (p_comp p)) eqn:En; cbn [orb].
+    - apply is_nil_true in En. specialize (Hn En). apply andb_true_iff in Hn as [-> ->]. reflexivity.
+    - cbn [andb orb]. first [reflexivity | now rewrite !andb_assoc]. }
+  rewrite E. destruct (valid_set p); split; congruence.
+Qed.
+
+(* F25 stated on the former writer by name *)
+Lemma former_writer_long_value_misread :
+  exists p p', validate p = Some p /\ transportable_p p /\
+               unmarshal_bin (marshal_bin_former (fun l => l) p) = Some p' /\ p_tid p' <> p_tid p.
+Proof. exact long_value_misread. Qed.
+
+(* ---------- the binary writer as it is now (checks the 16-bit bound; fix of F25) ---------- *)
+
+Lemma fits16_short kv : fits16 kv = true -> N.of_nat (length (snd kv)) < 65536.
+Proof. unfold fits16. rewrite andb_true_iff, !N.ltb_lt. tauto. Qed.
+
+(* whatever order the pairs are written in: if the checked writer produces bytes, the reader
+   returns the set; it refuses exactly when some key or value does not fit 16 bits *)
+Lemma bin_roundtrip_checked p order b :
+  transportable_p p -> (forall l, Permutation (order l) l) ->
+  marshal_bin_checked order p = Some b -> unmarshal_bin b = Some p.
+Proof.
+  intros Ht Ho. unfold marshal_bin_checked.
+  destruct (forallb fits16 (order (marshal_kv p))) eqn:E; [|discriminate].
+  intros H; injection H as <-. apply bin_roundtrip; [exact Ht | | apply Ho].
+  intros kv Hin. apply fits16_short. rewrite forallb_forall in E. apply E.
+  eapply Permutation_in; [apply Permutation_sym, Ho | exact Hin].
+Qed.
+
+Lemma bin_checked_refuses_iff p order : (forall l, Permutation (order l) l) ->
+  (marshal_bin_checked order p = None <-> exists kv, In kv (marshal_kv p) /\ fits16 kv = false).
+Proof.
+  intros Ho. unfold marshal_bin_checked.
+  destruct (forallb fits16 (order (marshal_kv p))) eqn:E; split; try discriminate; try reflexivity.
+  - intros (kv & Hin & Hf). rewrite forallb_forall in E.
+    rewrite E in Hf; [discriminate|]. eapply Permutation_in; [apply Permutation_sym, Ho | exact Hin].
+  - intros _. destruct (forallb fits16 (marshal_kv p)) eqn:E2.
+    + rewrite forallb_forall in E2. assert (forallb fits16 (order (marshal_kv p)) = true); [|congruence].
+      apply forallb_forall. intros x Hx. apply E2. eapply Permutation_in; [apply Ho | exact Hx].
+    + clear E. induction (marshal_kv p) as [|x l IH]; [discriminate|]. cbn [forallb] in E2.
+      destruct (fits16 x) eqn:Ex.
+      * destruct (IH E2) as (kv & Hin & Hf). exists kv. split; [now right | exact Hf].
+      * exists x. split; [now left | exact Ex].
+Qed.
+
+(* the F25 witness is refused by the writer as it is now *)
+Lemma long_value_refused_when_checked : marshal_bin_checked (fun l => l) long_p = None.
+Proof. vm_compute. reflexivity. Qed.
+
+(* and a set whose longest text is 65535 bytes is still carried (the bound is tight) *)
+Lemma longest_value_carried :
+  let p := mkP enc_json [] None None (repeat 121 (N.to_nat 65535)) false [] 0 0 in
+  match marshal_bin_checked (fun l => l) p with
+  | Some b => oparams_eqb (unmarshal_bin b) (Some p)
+  | None => false
+  end = true.
+Proof. vm_compute. reflexivity. Qed.
+
+(* F27, second half: the same set (no type named) gives two peers with different local defaults
+   different modes - the settings are not a function of the parameters *)
+Lemma level_without_type_depends_on_base :
+  let p := mkP [] [] (Some 5%Z) (Some 8%Z) [] false [] 0 0 in
+  validate p = Some p /\
+  effective (compress_config p (mkC false 0 true 0)) <> effective (compress_config p (mkC false 0 false 0)).
+Proof. split; [reflexivity | discriminate]. Qed.
+
+(* F26 through the readers: a key/value map (e.g. a URL query) holding a byte string that is
+   not UTF-8 is accepted, with U+FFFD in its place, while the binary reader refuses the same pair *)
+Lemma non_utf8_accepted_by_kv_reader :
+  unmarshal_kv [(k_tid, [255])] = Some (mkP [] [] None None [239; 191; 189] false [] 0 0)
+  /\ unmarshal_url [(k_tid, [[255]])] = Some (mkP [] [] None None [239; 191; 189] false [] 0 0)
+  /\ unmarshal_bin (frames [(k_tid, [255])]) = None.
+Proof. vm_compute. repeat split; reflexivity. Qed.
